@@ -201,7 +201,7 @@ def base_consts(cfg, ops, gen):
     return {
         "DS": Chars(cfg["ds"]), "DE": Chars(cfg["de"]), "TL": Chars(cfg["tl"]), "RM": Chars(cfg["rm"]),
         "OFF": Chars(cfg["off"]), "NOW": list(cfg["now"]), "TARGETS": [Chars(t) for t in cfg["targets"]],
-        "OPS": ops, "GEN": gen,
+        "OPS": ops, "GEN": re.sub(r"[^A-Za-z0-9_.\-]", "_", gen),
     }
 
 
